@@ -132,9 +132,6 @@ func (h *HttpServer) handleStreamInit(w http.ResponseWriter, r *http.Request) {
 		Implementation:    h.server.implementation,
 	}
 
-	ctx, hookCleanup := h.startDispatchHook(r.Context(), dispatchInfo, stats, &handlerErr)
-	defer hookCleanup()
-
 	// Application-protocol-version gate. Same as the HTTP unary path —
 	// stream init dispatches directly here without going through
 	// server.serveOne. Stream methods never include ``__describe__``,
@@ -142,11 +139,15 @@ func (h *HttpServer) handleStreamInit(w http.ResponseWriter, r *http.Request) {
 	if h.server.protocolVersionSet {
 		clientVersion, present := req.Metadata[MetaProtocolVersion]
 		if pverr := h.server.checkProtocolVersion(clientVersion, present); pverr != nil {
-			handlerErr = pverr
 			h.writeHttpError(w, http.StatusBadRequest, pverr, nil)
 			return
 		}
 	}
+
+	// Dispatch hooks see only calls that pass the gate, as on the pipe
+	// transport (serveOne runs the gate before OnDispatchStart).
+	ctx, hookCleanup := h.startDispatchHook(r.Context(), dispatchInfo, stats, &handlerErr)
+	defer hookCleanup()
 
 	params, err := deserializeParams(req.Batch, info.ParamsType)
 	if err != nil {
